@@ -410,6 +410,71 @@ func c07Scenarios() []c07Scenario {
 	res = append(res, h1("H1r concurrent repeats: 2 indexers on overlapping bulks", [][]int{{0, 1}, {1, 2}}, 2, 1))
 	res = append(res, h1("H1r whole-bulk repeat, 2 indexers, no reader", [][]int{{0, 1}, {0, 1}}, 2, 0))
 
+	// ---- H8: a fetch by ID that does not come from a search on this store (the Fetch API asks every store; the ID
+	// may come from a replica that is ahead): the bulk that carries the ID is being written and indexed while the
+	// fetch runs. Every entry is the document's bytes or empty, never an error.
+	res = append(res, c07Scenario{"H8 fetch by ID of a bulk that is being written", func() (*c07World, []func(), func()) {
+		w := newC07World()
+		ai := frac.VerifNewIndexer(16)
+		fp := newFP(ai, 64*consts.MB)
+		a := fp.NewActive(w.dir + "/seq-db-H8")
+		w.cleanup = append(w.cleanup, a.Suicide)
+		var wg vfrac.WG
+		pre := c07Bulk(0, 1) // the fraction's time range covers the IDs of the second bulk already
+		w.submit(pre)
+		d0, m0 := vfrac.BuildBulk(pre, 1)
+		wg.Add(1)
+		if err := a.Append(d0, m0, &wg); err != nil {
+			panic(err)
+		}
+		for ai.VerifProcessOne() {
+		}
+		w.acked = append(w.acked, pre...)
+		second := c07Bulk(2, 3)
+		w.submit(second)
+		var written atomic.Bool
+		all := append(append([]refdb.Doc{}, pre...), second...)
+		var src []seq.IDSource
+		for _, d := range all {
+			src = append(src, seq.IDSource{ID: vfrac.SeqID(d.ID)})
+		}
+		bodies := []func(){
+			func() {
+				d, m := vfrac.BuildBulk(second, 1)
+				wg.Add(1)
+				if err := a.Append(d, m, &wg); err != nil {
+					w.fail("append error: %v", err)
+					wg.Done()
+				} else {
+					w.ack(second)
+				}
+				written.Store(true)
+			},
+			indexerLoop(ai, func() bool { return written.Load() }),
+			func() {
+				for pass := 0; pass < 2; pass++ {
+					docs, err := directFetch(a)(src)
+					if err != nil {
+						w.fail("fetch by ID, pass %d: error: %v", pass, err)
+						continue
+					}
+					for i, d := range all {
+						if len(docs[i]) != 0 && string(docs[i]) != d.Body {
+							w.fail("fetch by ID, pass %d: id %v fetched as %q, want %q or empty", pass, d.ID, docs[i], d.Body)
+						}
+						if i < len(pre) && len(docs[i]) == 0 {
+							w.fail("fetch by ID, pass %d: acknowledged document %v not found", pass, d.ID)
+						}
+					}
+				}
+			},
+		}
+		return w, bodies, func() {
+			wg.Wait()
+			w.finalCheck(directSearch(a), directFetch(a), true)
+		}
+	}})
+
 	// ---- H2: hand-over (seal / suicide) on one proxy fraction ----
 	h2 := func(name string, suicide bool, readers int) c07Scenario {
 		return c07Scenario{name, func() (*c07World, []func(), func()) {
